@@ -1,6 +1,7 @@
 /-
   Driver for the SSHConfig model.  All strings are hex of their UTF-8 bytes (`-` = empty string).
     lookup <user> <localhost> <fqdn> <home> <hostname> <line>…   → ok <key>=<val>;…  (sorted by key) | err parse|exec|canon
+    lookups <user> <localhost> <fqdn> <home> <host>,<host>,… <line>…   successive lookups on ONE parsed object → answers joined by " | "
     hostnames <line>…                                            → ok <hex>,<hex>,… (sorted) | err parse
     glob <pattern> <name>                                        → 1 | 0
   line: H:<pat>,<pat>,…   M:<tok>,<tok>,…   K:<key>:<value>
@@ -58,6 +59,17 @@ def step (line : String) : String :=
       match lookupLines env lines hostname with
       | .ok d => "ok " ++ showDict d
       | .error e => showErr e
+    | _, _, _, _, _, _ => "bad-op"
+  | "lookups" :: user :: lhost :: fqdn :: home :: hosts :: lines =>
+    match strOfHex user, strOfHex lhost, strOfHex fqdn, strOfHex home, (hosts.splitOn ",").mapM strOfHex, lines.mapM parseLine with
+    | some user, some lhost, some fqdn, some home, some hosts, some lines =>
+      let env : Env := { localUser := user, localHost := lhost, fqdn := fqdn, home := home, hashC := toyHash }
+      match parse lines with
+      | .error e => showErr e
+      | .ok blocks =>
+        " | ".intercalate ((lookupSession env blocks hosts).2.map fun r => match r with
+          | .ok d => "ok " ++ showDict d
+          | .error e => showErr e)
     | _, _, _, _, _, _ => "bad-op"
   | "hostnames" :: lines =>
     match lines.mapM parseLine with
